@@ -7,6 +7,7 @@ concrete kernels.
 -/
 import FuraxModel.Reduce
 import FuraxProofs.Lemmas.Scan
+import FuraxProofs.Lemmas.OpEq
 namespace Furax
 open Op
 
@@ -189,6 +190,29 @@ theorem homothetyRule_sound : L.toSem.ListSound homothetyRule := by
             exact L.app_homogeneous _ _ _ hsw _ _ hx
   · exact ⟨h, fun _ _ => rfl⟩
 
+/-- filtering identities out of a sound rule's output keeps it sound -/
+theorem dropIdentities_sound (ru : BRule) (h : L.toSem.RuleSound ru) :
+    L.toSem.RuleSound (dropIdentities ru) := by
+  intro l r new hf hlr
+  simp only [dropIdentities] at hf
+  split at hf
+  · rename_i new0 hf0
+    simp only [Except.ok.injEq, Option.some.injEq] at hf
+    subst hf
+    obtain ⟨hw, ha⟩ := h l r new0 hf0 hlr
+    obtain ⟨hw', ha'⟩ := L.identityRule_sound _ _ _ hw
+    exact ⟨hw', fun x hx => by rw [ha' x hx, ha x hx]⟩
+  · rename_i hne
+    exact absurd hf (hne new)
+
+theorem cfg_rules_sound (red : Op → Except PyErr Op)
+    (hr : ∀ ru ∈ binaryRules red, L.toSem.RuleSound ru) :
+    ∀ ru ∈ (reductionCfg red).rules, L.toSem.RuleSound ru := by
+  intro ru hm
+  simp only [reductionCfg, List.mem_map] at hm
+  obtain ⟨ru0, hm0, rfl⟩ := hm
+  exact L.dropIdentities_sound ru0 (hr ru0 hm0)
+
 theorem inSLast_eq_last (ops : List Op) (last : Op) (hl : ops.getLast? = some last) :
     inSLast ops = Op.inS last := by
   induction ops with
@@ -219,7 +243,7 @@ theorem algebraicReduction_sound (red : Op → Except PyErr Op)
     · simp at hres
     · simp at hres
     · rename_i r hscan
-      obtain ⟨w3, a3⟩ := scan_sound L.toSem (reductionCfg red) hr L.homothetyRule_sound _ _ _ _ _ _ w2 hscan
+      obtain ⟨w3, a3⟩ := scan_sound L.toSem (reductionCfg red) (L.cfg_rules_sound red hr) L.homothetyRule_sound _ _ _ _ _ _ w2 hscan
       have hall : ∀ x, L.mem s x → L.toSem.app r x = L.toSem.app ops x :=
         fun x hx => by rw [a3 x hx, a2 x hx, a1 x hx]
       split at hres
@@ -247,4 +271,64 @@ theorem algebraicReduction_sound (red : Op → Except PyErr Op)
         exact ⟨w3, hall⟩
 
 end OpSem
+
+/-! ### normal form of the concrete reduction -/
+
+theorem filter_hom_strip (l : List Op) :
+    List.filter isHomothety (List.filter (fun o => !o.isHomothety) l) = [] := by
+  simp only [List.filter_eq_nil_iff, List.mem_filter]
+  intro a ha; simpa using ha.2
+
+theorem homothetyRule_homCount (ops : List Op) :
+    ((homothetyRule ops).filter isHomothety).length ≤ 1 := by
+  match ops with
+  | [] => simp [homothetyRule]
+  | [o] =>
+    simp only [homothetyRule, List.filter]
+    split <;> simp
+  | first :: o2 :: rest =>
+    obtain ⟨last, hl⟩ : ∃ last, (first :: o2 :: rest).getLast? = some last := by
+      cases hg : (first :: o2 :: rest).getLast? with
+      | none => simp at hg
+      | some l => exact ⟨l, rfl⟩
+    simp only [homothetyRule, hl]
+    split
+    · rename_i h0
+      have : (List.filter isHomothety (first :: o2 :: rest)).length = 0 := by simpa using h0
+      omega
+    · split
+      · rename_i h1
+        simp only [Bool.and_eq_true, beq_iff_eq] at h1
+        omega
+      · split
+        · rw [List.filter_cons_of_pos (OpSem.mkHomothety_law _ _).1, filter_hom_strip]
+          simp
+        · rw [List.filter_append, filter_hom_strip,
+            List.filter_cons_of_pos (OpSem.mkHomothety_law _ _).1]
+          simp
+
+/-- **Normal form.**  Whatever `AlgebraicReductionRule.apply` returns, no adjacent pair of it fires any
+registered rule, and it contains at most one scalar operator. -/
+theorem algebraicReduction_normal (red : Op → Except PyErr Op) (ops res : List Op)
+    (hlen : 2 ≤ ops.length) (hres : algebraicReduction red ops = .ok res) :
+    Irreducible (reductionCfg red) res ∧ (res.filter isHomothety).length ≤ 1 := by
+  unfold algebraicReduction at hres
+  split at hres
+  · omega
+  · simp only [] at hres
+    split at hres
+    · simp at hres
+    · simp at hres
+    · rename_i r hscan
+      have hirr := scan_irreducible (reductionCfg red) _ _ _ _ (by intro i _ hi; omega) hscan
+      have hcnt := scan_homCount (reductionCfg red) (fun o => homothetyRule_homCount o) _ _ _ _
+        (homothetyRule_homCount _) hscan
+      split at hres
+      · simp only [Except.ok.injEq] at hres; subst hres
+        refine ⟨fun i hi => by simp at hi, ?_⟩
+        simp [List.filter, mkIdentity, isHomothety, isLeafCls,
+          show (LeafCls.homothety == LeafCls.identity) = false from rfl]
+      · simp only [Except.ok.injEq] at hres; subst hres
+        exact ⟨hirr, hcnt⟩
+
 end Furax
